@@ -655,6 +655,8 @@ def e_sqrt(a):
         rn, rd = math.isqrt(n), math.isqrt(d)
         if rn * rn == n and rd * rd == d:
             return Fraction(rn, rd)
+        if CONCRETE_SQRT[0]:
+            return Fraction(math.sqrt(float(a)))
     t, n, i = rparts(a)
     eng = E()
     y = z3.Real("sqrt!%d" % _fresh())
@@ -666,6 +668,7 @@ def e_sqrt(a):
 
 
 _counter = [0]
+CONCRETE_SQRT = [False]      # conformance runs only: float sqrt for concrete irrational roots
 
 
 def _fresh():
